@@ -39,6 +39,8 @@ DECOR = {
     'unknownF': ('CA', [('F', 'anchor')]),
     'unknown-chain': ('CB', [('O', 'anchor'), ('O', 0), ('O', 1)]),
     'phos-extra': ('CB', [('P', 'anchor'), ('O', 0), ('O', 0)]),
+    'nme-twice': ('N', [('C', 'anchor'), ('C', 'anchor')]),          # the same modification placed twice on one anchor
+    'oh-twice': ('CB', [('O', 'anchor'), ('O', 'anchor')]),
 }
 
 
@@ -79,6 +81,18 @@ def make_case(rng):
                 new.append(key)
                 key += 1
             used.append(d)
+    if rng.random() < 0.25:                          # unexplained atoms bonded to nothing recognised (an ion, a hydroxide)
+        r = rng.randrange(len(byres))
+        rid = nodes[[n['id'] for n in nodes].index(byres[r]['CA'])]['resid']
+        junk += 1
+        nodes.append({'id': key, 'resid': rid, 'name': 'X%d' % junk, 'el': rng.choice(['O', 'Z']), 'ptm': True})
+        key += 1
+        if rng.random() < 0.5:
+            junk += 1
+            nodes.append({'id': key, 'resid': rid, 'name': 'X%d' % junk, 'el': 'H', 'ptm': True})
+            edges.append([key - 1, key])
+            key += 1
+        used.append('floating')
     if len(byres) >= 2 and rng.random() < 0.3:      # a sulfur bridging the CB atoms of two residues
         a, b = rng.sample(range(len(byres)), 2)
         junk += 1
